@@ -15,7 +15,7 @@ from ..bridge import diff
 from ..gen import specgen, valuegen
 from ..models.spec_model import read_walk, ModelStepLimit
 from ..seams import StepCap, HarnessError
-from ..treeenv import get_tree_env, TreeRejected, closure, prune_tree, element_deletions
+from ..treeenv import get_tree_env, TreeRejected, closure, prune_tree, element_deletions, shape_features
 
 ID = "C03"
 LEVEL = "fault_enumeration"
@@ -339,6 +339,9 @@ def execute(plan, env):
                 break
         te = get_tree_env(env, plan["tree"])
         run.te = te
+    if "cases" not in plan:
+        for f in shape_features(te.spec):
+            res.count("shape." + f)
     if res.violation:
         pass
     elif "cases" in plan:                      # concrete (minimised) cases
@@ -473,6 +476,14 @@ def shrink(plan, still_fails, budget):
                 progress = True
                 break
     return best
+
+
+def post_check(agg):
+    rejected = agg["counters"].get("probe.tree_rejected", 0) + agg["counters"].get("tree_rejected", 0)
+    if agg["plans"] and rejected * 2 > agg["plans"]:
+        return [f"{rejected} of {agg['plans']} spec trees were rejected by the generator or failed to import: "
+                "nothing was explored (C18 decides whether the generator is at fault)"]
+    return []
 
 
 LEVEL_TEXT = (
